@@ -36,6 +36,12 @@ Judge(e) ==
          ELSE IF e.expire < 0 /\ e.calls3 # 1 THEN [ok |-> FALSE, why |-> "C16 an entry without expiry was recomputed"]
          ELSE IF e.rok # 1 THEN [ok |-> FALSE, why |-> "C16 result differs from the undecorated function"]
          ELSE [ok |-> TRUE, why |-> ""]
+    ELSE IF e.ev = "names"
+    THEN IF e.q1 # e.q2 /\ (e.shared = 1 \/ e.r2ok # 1)
+         THEN [ok |-> FALSE, why |-> "C16 two different functions (" \o e.q1 \o ", " \o e.q2 \o ") share a cache entry"]
+         ELSE IF e.q1 = e.q2 /\ (e.shared # 1 \/ e.r2ok # 1)
+         THEN [ok |-> FALSE, why |-> "C16 the same function decorated twice did not find its own entry"]
+         ELSE [ok |-> TRUE, why |-> ""]
     ELSE IF e.ev = "stamp"
     THEN IF e.ok12 # 1 THEN [ok |-> FALSE, why |-> "C16 memoize_stampede returned a wrong result around an early recomputation"]
          ELSE IF e.rok # 1 THEN [ok |-> FALSE, why |-> "C16 after an early recomputation of f(*X) the call f(*X, None) did not get its own result (shared entry with the recomputation marker)"]
